@@ -1,4 +1,5 @@
 import Brax.Model.C02
+import Brax.Model.ScanLevels
 import Brax.Spec.C02
 /-! line protocol driver for C02
 
@@ -143,7 +144,11 @@ def stepLine (line : String) : String :=
     match Rd.run p ts with
     | some (ps, as) =>
       if ps.length != as.length then "bad-args" else
-      joinToks ((revAcc (fun (x y : Int) => x + y) ps as).map toString)
+      -- the accumulation the theorems use, and the level-grouped transcription of scan.tree(reverse=True)
+      -- with the additive carry (`crb_fn`/`cfrc_fn`): they must agree (theorem `reverse_scan_levels_eq_accumulation`)
+      let acc := revAcc (fun (x y : Int) => x + y) ps as
+      let coded := Kin.scanTreeLevelsRev (Gd.addF (fun (x y : Int) => x + y)) ps as 0 0 (fun (x y : Int) => x + y)
+      if coded != acc then "bad-coded-differs-from-accumulation" else joinToks (coded.map toString)
     | none => "bad-args"
   | _ => "bad-op"
 
